@@ -3031,6 +3031,7 @@ func (data *Data) Clone() *Data {
 	// Copy nodes.
 	other.DataNodes = data.CloneDataNodes()
 	other.MetaNodes = data.CloneMetaNodes()
+	other.SqlNodes = data.CloneSqlNodes()
 
 	other.Databases = data.CloneDatabases()
 	other.Streams = data.CloneStreams()
